@@ -46,6 +46,7 @@ class _Echo(BaseRequestHandler):
     def _stream(self, d, m):
         def gen():
             yield Payload(b'1' + d, m), False
+            yield Payload(None, b'M' + d[:3]), False          # a metadata-only element is an element too
             yield Payload(b'2' + d, None), True
         return StreamFromGenerator(gen, delay_between_messages=timedelta(milliseconds=1 if type(self).pace else 0))
 
@@ -131,8 +132,8 @@ class Link:
 
 def c_end_to_end(i1: bool, i2: bool, l1: int, frag: bool, mode: int, pace: bool) -> str:
     """
-    Two concurrent interactions KINDS (each of: request-response, fire-and-forget, stream with two elements, channel
-    with two elements per direction, metadata-push), the first initiated by the client (i1) or the server, the second
+    Two concurrent interactions KINDS (each of: request-response, fire-and-forget, stream with three elements - one of them
+    metadata-only -, channel with three elements per direction, metadata-push), the first initiated by the client (i1) or the server, the second
     likewise (i2); payload data/metadata of length classes l1 (first) and L2 (second): 1 / 40 / 100 / 150 bytes with a
     distinct byte pattern per payload; both endpoints fragment at 64 bytes or not at all; link mode 0: message framing,
     1: TCP framing delivered whole, 2: TCP with the first client->server deliveries cut to 1 byte then 70 bytes,
@@ -188,6 +189,7 @@ def c_end_to_end(i1: bool, i2: bool, l1: int, frag: bool, mode: int, pace: bool)
             elif kind == 3:
                 def gen(d=d):
                     yield Payload(b'c1' + d, None), False
+                    yield Payload(b'', b'mo' + d[:2]), False
                     yield Payload(b'c2' + d, b'm' + d[:5]), True
                 s = Rec()
                 ep.request_channel(p, StreamFromGenerator(gen)).subscribe(s)
@@ -220,9 +222,9 @@ def c_end_to_end(i1: bool, i2: bool, l1: int, frag: bool, mode: int, pace: bool)
                         devs.append('C01:rr:caller-got-a-response-that-is-not-its-own')
             elif kind in (2, 3):
                 got = [(_b(a), _b(b)) for a, b in x.vals]
-                if got != [(b'1' + d, m), (b'2' + d, b'')]:
+                if got != [(b'1' + d, m), (b'', b'M' + d[:3]), (b'2' + d, b'')]:
                     devs.append('C01:%s:stream-elements-lost-duplicated-corrupted-or-reordered' % NAMES[kind])
-                if x.log != ['S', 'N', 'NC']:
+                if x.log != ['S', 'N', 'N', 'NC']:
                     devs.append('C01:%s:subscriber-signals-differ' % NAMES[kind])
                 if kind == 3:
                     subs = [s for dd, s in peer._handler.chan_subs if dd == d]
@@ -230,7 +232,7 @@ def c_end_to_end(i1: bool, i2: bool, l1: int, frag: bool, mode: int, pace: bool)
                         devs.append('channel-handler-invoked-%d-times' % len(subs))
                     else:
                         got2 = [(_b(a), _b(b)) for a, b in subs[0].vals]
-                        if got2 != [(b'c1' + d, b''), (b'c2' + d, b'm' + d[:5])]:
+                        if got2 != [(b'c1' + d, b''), (b'', b'mo' + d[:2]), (b'c2' + d, b'm' + d[:5])]:
                             devs.append('C01:ch:requester-elements-lost-duplicated-corrupted-or-reordered')
         if len(srec) + len(crec) != len(started):
             devs.append('a-handler-was-invoked-for-a-payload-nobody-sent')
